@@ -75,6 +75,12 @@ def main():
     if xg:
         chk.run("xonsh.gram derivations k=0", harness.A_harness(tfx, path_oracles=("c03",)), f"{len(xg)} programs derived from every alternative of the working tree's grammar",
                 wall=150 if chk.quick else 900, vacuity=("ok",))
+    cp = seeds.concat_product(False, 200 if chk.quick else 3000, chk.rng) + seeds.literal_product()
+
+    def tfc(ex):
+        return cp[harness.choose_index(ex, "c", len(cp))]
+    chk.run("string concatenation product (all kinds) k=0", harness.A_harness(tfc, path_oracles=("c03",)), f"{len(cp)} implicit concatenations of string-like atoms",
+            wall=150 if chk.quick else 900, vacuity=("ok", "SyntaxError"))
     from checks.c11 import LAYOUT_ERR_SEEDS
     texts = LAYOUT_ERR_SEEDS + py + xs + [t for t in lits if len(t) < 120]
     if chk.quick:
